@@ -14,6 +14,7 @@ from __future__ import annotations
 
 from fractions import Fraction
 import numbers
+import time as _time
 
 
 class _Unknown:
@@ -115,6 +116,16 @@ def is_number(x):
 
 _INF = float("inf")
 ZERO_ATOMS = frozenset()
+DEADLINE = None
+
+
+class AlgebraTimeout(Exception):
+    pass
+
+
+def set_deadline(t):
+    global DEADLINE
+    DEADLINE = t
 
 
 def set_zero_atoms(atoms):
@@ -303,6 +314,8 @@ class Poly:
         if o2 is None:
             return NotImplemented
         t = {}
+        if DEADLINE is not None and len(self.terms) * len(o2.terms) > 2000 and _time.time() > DEADLINE:
+            raise AlgebraTimeout("time budget exceeded inside polynomial arithmetic (expression swell)")
         for m1, c1 in self.terms.items():
             for m2, c2 in o2.terms.items():
                 m = Poly._mulmono(m1, m2)
